@@ -1,9 +1,9 @@
 /* C04 - trust-anchor policies say OK only if the calendar root is bound to the anchor */
 #include "anchor_fix.h"
 
-enum { X_OK = 0, X_FAIL, X_INCONCLUSIVE, X_NOT_OK };
+enum { X_OK = 0, X_FAIL, X_INCONCLUSIVE, X_NOT_OK, X_SILENT };
 typedef struct { int cls; int code; } expect_t;
-static const char *XNAME[] = {"OK", "FAIL", "INCONCLUSIVE", "NOT-OK"};
+static const char *XNAME[] = {"OK", "FAIL", "INCONCLUSIVE", "NOT-OK", "not-judged"};
 
 static void judge(const char *what, expect_t e, int rc, KSI_PolicyVerificationResult *r) {
 	int got_ok = rc == KSI_OK && r && r->finalResult.resultCode == KSI_VER_RES_OK;
@@ -21,6 +21,7 @@ static void judge(const char *what, expect_t e, int rc, KSI_PolicyVerificationRe
 			if (got_ok) vf_fail("unbound-ok", "%s: anchor missing / extension forbidden, unavailable or failed, but verdict OK", what);
 			else if (got_fail) vf_fail("inconclusive-reported-fail", "%s: anchor missing / extension forbidden, unavailable or failed must be inconclusive, got FAIL 0x%x", what, code);
 			break;
+		case X_SILENT: break;
 		default: if (got_ok) vf_fail("unbound-ok", "%s: verdict OK although the signature is not internally consistent / not bound to the anchor", what); break;
 	}
 }
@@ -38,6 +39,7 @@ static expect_t expect_extension(int ext, int anchor_hash_ok) {
 		case FXE_OTHER_ROOT: case FXE_RIGHT_ALTERED: e.cls = X_FAIL; e.code = KSI_VER_ERR_PUB_1; break;   /* reply root differs from the published hash */
 		case FXE_OTHER_INPUT: e.cls = X_NOT_OK; break;   /* root differs as well: PUB-01 or PUB-03, whichever is evaluated first */
 		case FXE_OTHER_AGGR_TIME: e.cls = X_NOT_OK; break; /* refused as a failed extension or reported as PUB-02 */
+		case FXE_RIGHT_EXTRA: case FXE_RIGHT_EXTRA_TOP: e.cls = X_NOT_OK; break;   /* other root, other shape: a refused extension or a contradiction */
 		default: e.cls = X_INCONCLUSIVE; break;           /* error status, error PDU, bad MAC, wrong id, no reply */
 	}
 	return e;
@@ -305,6 +307,11 @@ static void calendar_case(int form, int broken, int ext) {
 			break;
 		case FXE_OTHER_INPUT: e.cls = X_NOT_OK; break;                   /* CAL-02, or CAL-01 first when a publication record pins the root */
 		case FXE_OTHER_AGGR_TIME: e.cls = X_NOT_OK; break;               /* refused as failed extension or CAL-03 */
+		case FXE_RIGHT_EXTRA: case FXE_RIGHT_EXTRA_TOP:
+			/* surplus right link: right links differ (CAL-04), root differs, or the extension is refused. A signature without a calendar
+			 * chain has no right links and no root to compare: the statement is silent about the (malformed) shape of such a reply */
+			e.cls = form == 0 ? X_SILENT : X_NOT_OK;
+			break;
 		default: e.cls = X_INCONCLUSIVE; break;
 	}
 	judge("calendar", e, rc, res);
@@ -318,7 +325,7 @@ static void calendar_case(int form, int broken, int ext) {
 static void run(void) {
 	int form, broken, u, allowed, ext, f, src, k, pol;
 	/* user publication under its own policy and under the general policy */
-	for (pol = 0; pol < 2; pol++) for (form = 0; form < 4; form++) for (broken = 0; broken < 2; broken++) for (u = 0; u < U_NKIND; u++) for (allowed = 0; allowed < 2; allowed++) for (ext = 0; ext < FXE_NBEH; ext++) {
+	for (pol = 0; pol < 2; pol++) for (form = 0; form < 4; form++) for (broken = 0; broken < 3; broken++) for (u = 0; u < U_NKIND; u++) for (allowed = 0; allowed < 2; allowed++) for (ext = 0; ext < FXE_NBEH; ext++) {
 		if ((u == U_SIGPUB_SAME || u == U_SIGPUB_OTHERHASH) && form != 2) continue;
 		if (pol == 1 && u == U_ABSENT) continue;                         /* without a user publication the general policy consults the other anchors */
 		if (!VF_THOROUGH && ext != FXE_CORRECT && (u != U_LATER_CORRECT || !allowed || broken)) continue;
@@ -328,7 +335,7 @@ static void run(void) {
 		vf_case_end(1);
 	}
 	/* publications file */
-	for (form = 0; form < 4; form++) for (broken = 0; broken < 2; broken++) for (f = 0; f < F_NKIND; f++) for (src = 0; src < SRC_NSRC; src++) for (allowed = 0; allowed < 2; allowed++) for (ext = 0; ext < FXE_NBEH; ext++) {
+	for (form = 0; form < 4; form++) for (broken = 0; broken < 3; broken++) for (f = 0; f < F_NKIND; f++) for (src = 0; src < SRC_NSRC; src++) for (allowed = 0; allowed < 2; allowed++) for (ext = 0; ext < FXE_NBEH; ext++) {
 		if (!VF_THOROUGH && ext != FXE_CORRECT && (f != F_LATER_CORRECT || !allowed || broken || src > SRC_DOWNLOAD)) continue;
 		if (VF_THOROUGH && ext != FXE_CORRECT && !(f == F_LATER_CORRECT || f == F_LATER_WRONGHASH || f == F_HAS_SIGPUB)) continue;
 		if (src >= SRC_DOWNLOAD_ROGUE && ext != FXE_CORRECT) continue;
@@ -338,7 +345,7 @@ static void run(void) {
 	}
 	/* the same scenarios under the general policy without a user publication: the publications file is consulted first,
 	 * the fixture files list no certificate, so the key-based alternative stays inconclusive */
-	for (form = 0; form < 4; form++) for (broken = 0; broken < 2; broken++) for (f = 0; f < F_NKIND; f++) for (src = 0; src < SRC_NSRC; src++) for (allowed = 0; allowed < 2; allowed++) for (ext = 0; ext < FXE_NBEH; ext++) {
+	for (form = 0; form < 4; form++) for (broken = 0; broken < 3; broken++) for (f = 0; f < F_NKIND; f++) for (src = 0; src < SRC_NSRC; src++) for (allowed = 0; allowed < 2; allowed++) for (ext = 0; ext < FXE_NBEH; ext++) {
 		if (ext != FXE_CORRECT && (f != F_LATER_CORRECT || !allowed || broken || src > SRC_DOWNLOAD)) continue;
 		if (!VF_THOROUGH && src > SRC_DOWNLOAD) continue;
 		if (!vf_case_begin("general-pubfile:form%d:broken%d:%s:%s:allowed%d:ext-%s", form, broken, FNAME[f], SNAME[src], allowed, FXE_NAME[ext])) continue;
@@ -346,20 +353,20 @@ static void run(void) {
 		vf_case_end(1);
 	}
 	/* key based */
-	for (form = 0; form < 4; form++) for (broken = 0; broken < 2; broken++) for (k = 0; k < K_NKIND; k++) for (src = 0; src < SRC_NSRC; src++) {
+	for (form = 0; form < 4; form++) for (broken = 0; broken < 3; broken++) for (k = 0; k < K_NKIND; k++) for (src = 0; src < SRC_NSRC; src++) {
 		if (!vf_case_begin("key:form%d:broken%d:%s:%s", form, broken, KNAME[k], SNAME[src])) continue;
 		key_case(KSI_VERIFICATION_POLICY_KEY_BASED, "key-policy", form, broken, k, src);
 		vf_case_end(1);
 	}
 	/* under the general policy (no user publication; the file holds only an earlier publication and extending is not allowed,
 	 * so the publications-file alternative is inconclusive and the key-based one decides) */
-	for (form = 0; form < 4; form++) for (broken = 0; broken < 2; broken++) for (k = 0; k < K_NKIND; k++) for (src = 0; src < 2; src++) {
+	for (form = 0; form < 4; form++) for (broken = 0; broken < 3; broken++) for (k = 0; k < K_NKIND; k++) for (src = 0; src < 2; src++) {
 		if (!vf_case_begin("general-key:form%d:broken%d:%s:%s", form, broken, KNAME[k], SNAME[src])) continue;
 		key_case(KSI_VERIFICATION_POLICY_GENERAL, "general", form, broken, k, src);
 		vf_case_end(1);
 	}
 	/* calendar based */
-	for (form = 0; form < 4; form++) for (broken = 0; broken < 2; broken++) for (ext = 0; ext < FXE_NBEH; ext++) {
+	for (form = 0; form < 4; form++) for (broken = 0; broken < 3; broken++) for (ext = 0; ext < FXE_NBEH; ext++) {
 		if (!vf_case_begin("calendar:form%d:broken%d:ext-%s", form, broken, FXE_NAME[ext])) continue;
 		calendar_case(form, broken, ext);
 		vf_case_end(1);
